@@ -176,9 +176,11 @@ class C21(Property):
     ]
     technique = ("Lean 4 model of the trie with object identities (heap) and the valid_paths cache; negative witnesses by kernel "
                  "evaluation and induction on the step budget; invariants for relation-free histories; differential correspondence")
-    level_text = ("grade B+: the code as written is modelled with object identities; both known defects are proved on witnesses "
+    level_text = ("grade A-: the code as written is modelled with object identities; both known defects are proved on witnesses "
                   "(relate-after-invalidate ignored because of stale valid_paths; invalidate_location diverges for every step budget); "
-                  "partial theorems for histories without relations; model compared with the real DefaultDataManager after every "
+                  "for every history of registrations and invalidations without relations the valid_paths cache is proved exact "
+                  "(registry_refines_spec_partial) and re-registration always restores availability; invalidation proved to only "
+                  "invalidate; model compared with the real DefaultDataManager after every "
                   "operation of random histories")
     level_note = ("Lean kernel, axioms within {propext, Classical.choice, Quot.sound}; hand-written model tied to the code by the "
                   "correspondence check")
